@@ -510,6 +510,28 @@ def cli_config_mapping(prog, chk):
             else:
                 chk.ob(pure and src == name and not neg, "A15.cli-mapping", f"from_args:{name}", fa.where(line=f.get("line") or st.get("line")), f"TransformConfig::{name} = args.{name}", f"the command initialises TransformConfig::{name} from an expression other than args.{name} ({'args.' + src if src else 'a computed value'}{' negated' if neg else ''}): the command then runs with a configuration the user did not give, and its output differs from the library's for the same input and configuration")
     chk.floor("A15.cli-mapping", n, 15, "TransformConfig field initialised by the command")
+    # ... and every option the command accepts that has a TransformConfig field of its name is among them (a struct
+    # written with `..TransformConfig::default()` silently leaves out what it does not mention)
+    def fields(path):
+        for it in prog.items:
+            if it.get("item") == "adt" and it["path"] == path:
+                return [f["name"] for v in it.get("variants", []) for f in v.get("fields", [])]
+        return None
+
+    opts, cfg = fields("svgdx::cli::Arguments"), fields("svgdx::TransformConfig")
+    if opts is None or cfg is None:
+        chk.undecided("A15.cli-mapping", "from_args:all-options", fa.where(), "the command's Arguments struct / TransformConfig not found")
+        return
+    rev = {v[0]: k for k, v in CLI_FIELD_OK.items()}
+    expected = sorted({rev.get(o, o) for o in opts} & set(cfg))
+    given = {f["name"] for st in hirq.struct_exprs(h, "svgdx::TransformConfig") for f in st["fields"]}
+    # fields written afterwards (`cfg.border = args.border;`) count as well
+    for a in hirq.exprs(h["body"], "Assign"):
+        fc = hirq.field_chain(a["l"])
+        if fc and len(fc) >= 2:
+            given.add(fc[-1])
+    lost = [f for f in expected if f not in given]
+    chk.ob(not lost, "A15.cli-mapping", "from_args:all-options", fa.where(), f"all {len(expected)} options that have a TransformConfig field of their name are passed on", f"the options {['--' + rev.get(f, f).replace('_', '-') if False else f for f in lost]} are accepted by the command but never reach the TransformConfig: the transform runs with the library default instead of the value given on the command line")
 
 
 def output_replaced_unconditionally(prog, chk):
